@@ -330,21 +330,23 @@ def run_case(case):
             "sd": None}
 
 # ---- history generation -----------------------------------------------------------
+def gen_template_history(rng, n, max_len=6, kinds=("expand", "bfs", "dfs", "min", "target")):
+    """structured history: expand the root, then a few children in an order that is NOT the discovery order (later child first),
+    then one unrestricted strategy from the root.  Seeded change w6_C02 (BFS with an id watermark instead of a visited set) needs
+    exactly this and uniform op sequences rarely build it.  Returns None if the kinds do not allow it."""
+    finals = [k for k in kinds if k in ("bfs", "dfs", "min", "aseeds", "blockplain")]
+    if "expand" not in kinds or max_len < 3 or not finals:
+        return None
+    h = [("expand", 0)]
+    picks = sorted(rng.sample(range(1, 7), rng.randint(1, min(3, max_len - 2))), reverse=rng.random() < 0.8)
+    h += [("expand", k) for k in picks]
+    f = rng.choice(finals)
+    h.append({"bfs": ("bfs", None, None, None), "dfs": ("dfs", None, None, None), "min": ("min", None, None, False),
+              "aseeds": ("aseeds", None), "blockplain": ("block", True, None, False, False)}[f])
+    return h
+
 def gen_history(rng, n, max_len=6, kinds=("expand", "bfs", "dfs", "min", "target")):
     h = []
-    # structured template (1 history in 5): expand the root, then a few children in an order that is NOT the
-    # discovery order (later child first), then one unrestricted strategy from the root.  Seeded change w6_C02
-    # (BFS with an id watermark instead of a visited set) needs exactly this and uniform op sequences rarely build it.
-    if "expand" in kinds and max_len >= 3 and rng.random() < 0.2:
-        finals = [k for k in kinds if k in ("bfs", "dfs", "min", "aseeds", "blockplain")]
-        if finals:
-            h.append(("expand", 0))
-            picks = sorted(rng.sample(range(1, 7), rng.randint(1, min(3, max_len - 2))), reverse=rng.random() < 0.8)
-            h += [("expand", k) for k in picks]
-            f = rng.choice(finals)
-            h.append({"bfs": ("bfs", None, None, None), "dfs": ("dfs", None, None, None), "min": ("min", None, None, False),
-                      "aseeds": ("aseeds", None), "blockplain": ("block", True, None, False, False)}[f])
-            return h
     for _ in range(rng.randint(1, max_len)):
         k = rng.choice(kinds)
         lim = lambda: rng.choice([None, None, 1, 2, 3, 5, 8])
